@@ -52,6 +52,10 @@ def _on_none_test(test):
     if not (isinstance(a, ast.Compare) and _is_name(a.left, "on") and len(a.ops) == 1
             and isinstance(a.comparators[0], ast.Constant) and a.comparators[0].value is None):
         return None
+    if isinstance(b, ast.Compare) and len(b.ops) == 1 and _is_name(b.left, "how") and isinstance(b.ops[0], ast.Eq) \
+            and isinstance(a.ops[0], ast.Is):
+        # (on is None) and (how == "inner"): only the inner join without a condition becomes the product
+        return "none_eq", _const_str(b.comparators[0], "literal of the `how ==` test")
     if not (isinstance(b, ast.Compare) and len(b.ops) == 1 and _is_name(b.comparators[0], "how")):
         return None
     lit = _const_str(b.left, "literal of the cross test")
@@ -78,6 +82,8 @@ def join_facts(fn: ast.FunctionDef):
             if others or len(assigns) != 1 or not _is_name(assigns[0].targets[0], "how"):
                 raise Untranslatable("body of the cross test is not a single `how = <literal>`")
             val = _const_str(assigns[0].value, "value assigned to how")
+            f["none_eq"] = f.get("none_eq", False) or which == "none_eq"
+            which = "none" if which == "none_eq" else which
             if which in f:
                 raise Untranslatable(f"two `on is {'None' if which == 'none' else 'not None'}` tests")
             f[which] = (lit, val)
@@ -94,8 +100,18 @@ def join_facts(fn: ast.FunctionDef):
         elif isinstance(st, ast.NamedExpr):
             tg = [st.target]
         n_assign += sum(1 for t_ in tg for x in ast.walk(t_) if _is_name(x, "how"))
-    if n_assign != 2:
-        raise Untranslatable(f"join(): `how` is assigned {n_assign} times (the model knows the two cross rewrites only)")
+    # ... except for Spark's own normalisation as the very first rewrite:  how = how.lower().replace("_", "")
+    f["norm"] = False
+    first_if = min((st.lineno for st in fn.body if isinstance(st, ast.If) and _on_none_test(st.test) is not None))
+    for st in fn.body:
+        if isinstance(st, ast.Assign) and len(st.targets) == 1 and _is_name(st.targets[0], "how"):
+            if ast.unparse(st.value) == "how.lower().replace('_', '')" and st.lineno < first_if and not f["norm"]:
+                f["norm"] = True
+            else:
+                raise Untranslatable("join(): unexpected top-level assignment to `how`: " + ast.unparse(st))
+    if n_assign != 2 + (1 if f["norm"] else 0):
+        raise Untranslatable(f"join(): `how` is assigned {n_assign} times (the model knows the normalisation and the two "
+                             "cross rewrites only)")
     # --- join_type = JOIN_TYPE_MAPPING.get(how, how).replace(X, Y)
     jt = [st for st in ast.walk(fn) if isinstance(st, ast.Assign) and len(st.targets) == 1 and _is_name(st.targets[0], "join_type")]
     if len(jt) != 1:
@@ -159,6 +175,17 @@ def join_facts(fn: ast.FunctionDef):
             src_else = "\n".join(ast.unparse(x) for x in par.orelse)
             if "join_clause = None" not in src_else:
                 raise Untranslatable("else branch of `join_type != ..` does not set join_clause = None")
+            # a kept kind without a condition needs its own branch: if on is None: join_clause = lit(True); names of both sides
+            first = par.body[0] if par.body else None
+            has_true_branch = (isinstance(first, ast.If) and isinstance(first.test, ast.Compare) and _is_name(first.test.left, "on")
+                               and len(first.test.ops) == 1 and isinstance(first.test.ops[0], ast.Is)
+                               and isinstance(first.test.comparators[0], ast.Constant) and first.test.comparators[0].value is None)
+            if has_true_branch:
+                src_b = "\n".join(ast.unparse(x) for x in first.body)
+                if "join_clause = lit(True)" not in src_b or \
+                        "select_column_names = [column.alias_or_name for column in select_columns]" not in src_b:
+                    raise Untranslatable("the `on is None` branch does not join ON TRUE with the names of the selected sides")
+            f["true_branch"] = has_true_branch
         elif isinstance(op, ast.Eq):
             if not (isinstance(par, ast.IfExp) and par.test is c):
                 raise Untranslatable("`join_type == ..` is not the test of a conditional expression")
@@ -175,6 +202,8 @@ def join_facts(fn: ast.FunctionDef):
     if left_only is None or cross_eq is None or full_eq is None:
         raise Untranslatable("join(): one of the join_type tests (in [...], != .., == ..) was not found")
     f["left_only"], f["cross_eq"], f["full_eq"] = left_only, cross_eq, full_eq
+    if f.get("none_eq") and not f.get("true_branch"):
+        raise Untranslatable("`how == ..` rewrite without an `on is None` branch that joins ON TRUE")
     # --- key columns in front
     front = [st for st in ast.walk(fn) if isinstance(st, ast.Assign) and _is_name(st.targets[0], "select_column_names")
              and isinstance(st.value, ast.BinOp) and isinstance(st.value.op, ast.Add)]
@@ -235,7 +264,8 @@ def generate(repo: str):
          f"    {strlit(jf['none'][0])} {strlit(jf['none'][1])} {strlit(jf['some'][0])} {strlit(jf['some'][1])}",
          f"    {ch(jf['replace'][0])} {ch(jf['replace'][1])}",
          "    " + listlit([strlit(x) for x in jf["left_only"]]),
-         f"    {strlit(jf['cross_eq'])} {strlit(jf['full_eq'])} {strlit(right)}."]
+         f"    {strlit(jf['cross_eq'])} {strlit(jf['full_eq'])} {strlit(right)} {'true' if jf['norm'] else 'false'} "
+         f"{'true' if jf.get('none_eq') else 'false'}."]
     facts = [
         {"name": "JOIN_TYPE_MAPPING", "from": "dataframe.py (module level)", "hash": py2v.src_hash(m_node, src), "value": dict(m)},
         {"name": "cross test, on is None", "from": "dataframe.py: join", "value": list(jf["none"])},
@@ -245,6 +275,8 @@ def generate(repo: str):
         {"name": "join_type != (no ON)", "value": jf["cross_eq"]},
         {"name": "join_type == (COALESCE keys)", "value": jf["full_eq"]},
         {"name": "first join side == (right-to-left resolution)", "from": "dataframe.py: _resolve_ambiguous_columns", "value": right},
+        {"name": "how normalised like Spark (lower-case, no underscores) before anything else", "value": jf["norm"]},
+        {"name": "without a condition only how == <literal> becomes the product, other kinds are joined ON TRUE", "value": bool(jf.get("none_eq"))},
         {"name": "join() source", "hash": py2v.src_hash(join, src)},
         {"name": "_resolve_ambiguous_columns source", "hash": py2v.src_hash(amb, src)},
     ]
